@@ -59,6 +59,19 @@ Theorem C13_routing_pure : forall c c' h k k' n, put c k = put c' k' -> shard c 
 Proof. exact routing_pure. Qed.
 Print Assumptions C13_routing_pure.
 
+(* float('nan') is pickled by Disk.put (repair of finding C02-F2), so it is routed like every pickled key, by adler32 of its
+   pickle: all NaNs (one key: C02_nan_is_one_key) go to one shard; every other float is routed by adler32 of its 8 packed bytes,
+   as released. *)
+Theorem C13_routing_nan : forall c h n,
+  shard c h (VFloat FNaN) n = Some (Z.land (adler32 (pkk c (VFloat FNaN))) 4294967295 mod n).
+Proof. exact shard_nan. Qed.
+Print Assumptions C13_routing_nan.
+
+Theorem C13_routing_float : forall c h f n, is_nan (VFloat f) = false ->
+  shard c h (VFloat f) n = Some (Z.land (adler32 (pack_d h f)) 4294967295 mod n).
+Proof. exact shard_float. Qed.
+Print Assumptions C13_routing_float.
+
 (* C13_routing_respects_eq, FULL statement:
      forall c h k1 k2 n, key_domain k1 = true -> key_domain k2 = true -> key_eq k1 k2 = true -> 0 < n ->
                          shard c h k1 n = shard c h k2 n.
